@@ -1232,3 +1232,62 @@ fn is_acyclic6(edges: &[(usize, usize)]) -> bool {
 
 #[allow(dead_code)]
 fn _unused(_: Family, _: &Slot) {}
+
+pub fn replay(prop: &str, parts: &[(String, String)]) -> i32 {
+    let mut st = Stats::default();
+    let mut out = Vec::new();
+    if prop == "C16" {
+        let Some(ops) = parts.iter().find(|p| p.0 == "ops") else {
+            println!("replay: no ops");
+            return 2;
+        };
+        match ops_decode(&ops.1) {
+            Ok(ops) => check_c16_ops(&ops, &mut st, &mut out),
+            Err(e) => {
+                println!("replay: {e}");
+                return 2;
+            }
+        }
+    } else {
+        let Some(g) = parts.iter().find(|p| p.0 == "g") else {
+            println!("replay: no graph");
+            return 2;
+        };
+        let gs = match GraphSpec::decode(&g.1) {
+            Ok(g) => g,
+            Err(e) => {
+                println!("replay: {e}");
+                return 2;
+            }
+        };
+        match prop {
+            "C11" => check_c11(&gs, &mut st, &mut out),
+            "C12" => check_c12(&gs, &mut st, &mut out),
+            "C13" => check_c13(&gs, &mut st, &mut out),
+            "C14" => check_c14(&gs, &mut st, &mut out),
+            #[cfg(feature = "b")]
+            "C17" => check_c17(&gs, &mut st, &mut out),
+            "C18" => check_c18(&gs, &mut st, &mut out),
+            _ => {
+                println!("replay: {prop} not available in this configuration");
+                return 2;
+            }
+        }
+        let ug = UserGraph::from_spec(&gs);
+        println!("graph: {}", gs.encode());
+        println!("reference: accepted user edges {:?}, ranks {:?}", ug.edges, ug.ranks());
+    }
+    for v in &out {
+        println!("violated: {} {}: {}", v.prop, v.kind, v.detail);
+    }
+    if !st.inconclusive.is_empty() {
+        println!("replay: inconclusive: {:?}", st.inconclusive);
+        return 2;
+    }
+    if out.is_empty() {
+        println!("replay: property held on this case");
+        0
+    } else {
+        1
+    }
+}
